@@ -96,7 +96,7 @@ Proof.
   - rewrite MS_get_arg_cur in Gf. rewrite MS_get_arg_cur. unfold upd_cur, with_args. cbn [rc_args].
     destruct (Nat.eq_dec i j) as [<-|Ne].
     + exists r'. split; [eapply nth_error_upd_nth_same; eauto|]. split; [exact Rw|].
-      rewrite Gf in N. injection N as <-. now rewrite Sp.
+      rewrite Gf in N. injection N as <-. unfold needs_value in *. now rewrite Sp.
     + exists rf. rewrite (nth_error_upd_nth_other _ _ _ _ Ne). auto.
   - exists rf. split; [|auto]. unfold get_arg in *. cbn [fst snd] in *.
     rewrite <- (get_ctx_other i0 done cur (upd_cur cur i r') (Some (k, j)) got (Some (k, j)) got k Hk).
